@@ -3,27 +3,50 @@ PROP = dict(
     gens=[],
     lake=['IcyVerif.Props.C01'],
     ns='IcyVerif.C01',
-    theorems=['no_panic_bytes_partial', 'petscii_reverse_no_overflow', 'no_panic_wrapped_partial', 'no_panic_partial', 'overflow_guard_needs_2_30_rows', 'errors_recoverable', 'reachable_good'],
+    theorems=['no_panic_bytes_partial', 'petscii_reverse_no_overflow', 'no_panic_wrapped_partial', 'no_panic_partial', 'overflow_guard_needs_2_30_rows', 'errors_recoverable', 'reachable_good', 'music_fields_in_range', 'music_arith_safe', 'note_index_in_table'],
     harness='c01',
+    search=True,
     harness_timeout=1500,
     design='DESIGN.md §4 C01, §3.2 TermGeo',
-    technique='Lean 4 proof: every Rust panic the TermGeo model can exhibit (clamp min>max, negative index as usize, i32 '
-              'overflow of cursor/row arithmetic) is excluded for every stream by the state invariant (induction over the '
-              'stream and over macro nesting); model tied to all ten parsers by a per-character differential correspondence (geometry digest after every character); '
-              'oracle (panic / abort / hang per character, crash-isolated workers) on the real code for all emulations',
-    rule='cases: seeded grammar-based streams (complete CSI final x intermediate table, 0..6 parameters incl. 2^16, 10^6, '
-         '2^31-1 and 11-digit values, DCS macros/hex macros/sixel/font payloads, OSC palette/hyperlinks, APS, ANSI music, '
-         'emulation-specific lead-ins, raw bytes) for all 13 emulation configurations, screens 1..132 x 1..60; '
-         'evaluations = characters fed; distinct_nontrivial = distinct streams; every stream is additionally compared '
-         'with the model; exhaustive streams of length <= 2 (quick; 3 thorough) over each byte-oriented emulation\'s control alphabet',
+    technique='Lean 4 proof: every Rust panic the TermGeo model can exhibit (clamp min>max, negative index as usize in print / ECH / '
+              'IL / DL, i32 overflow of cursor/row arithmetic and of the music arithmetic) is excluded for every stream by the '
+              'state invariant (induction over the stream and over macro nesting); model tied to all ten parsers by a '
+              'per-character differential correspondence (geometry digest + PlayMusic payload after every character); '
+              'oracle (panic / abort / hang per character, crash-isolated workers) on the real code for all emulations; '
+              'failing-input search: the proved invariant GoodSt is evaluated on the real terminal after every character and '
+              'the first prefix that leaves it is extended with every probe suffix (probe.rs), plus the same from '
+              'correspondence mismatches (`--replay @search:<file>`, hook `search=True`, notes/check_search.patch)',
+    rule='cases: seeded grammar-based streams (complete CSI final x intermediate table + a table of well-formed private / '
+         'intermediate sequences, 0..6 parameters incl. 2^16, 10^6, 2^31-1 and 11-digit values, DCS macros/hex macros/sixel/font '
+         'payloads, OSC palette/hyperlinks, APS, ANSI music, save -> geometry change -> restore triples, emulation-specific '
+         'lead-ins, raw bytes) for all 13 emulation configurations, screens 1..132 x 1..60; exhaustive streams of length <= 2 '
+         '(quick; 3 thorough) over each byte-oriented emulation\'s control alphabet; four corners of a 7x4 screen (40x24 pages) '
+         'with and without scrollback x every control of the emulation\'s own alphabet (ANSI: ~480 tokens), every SGR number, '
+         'loadable fonts — all compared with the model; PROBE FAMILY (oracle only): the same corner x control prefixes '
+         '(<= 1 token quick, <= 2 tokens thorough for the non-ANSI emulations) x every probe suffix (~130 ANSI + own alphabet: '
+         'ECH ICH DCH IL DL insert/no-wrap print REP SU SD SL SR EL ED tabs HPA HPR CUx max-parameter loops rectangles checksum '
+         'reports save/restore across scrollback drop/growth/reset LF IND RI NEL margins resets hyperlinks macros); '
+         'evaluations = characters fed; distinct_nontrivial = distinct streams compared with the model',
     modelled='all ten emulations: Avatar / PCBoard / Ctrl-A / Renegade wrappers in front of the ANSI parser (Model/TermWrap, '
              'no_panic_wrapped_partial), ASCII / ATASCII / PETSCII / Viewdata / Mode 7 (Model/TermOther, no_panic_bytes_partial); '
-             'ANSI parser control flow (ESC/CSI/DCS/OSC/APS/music framing, macro definition incl. hex macros, macro '
+             'ANSI parser control flow (ESC/CSI/DCS/OSC/APS framing, macro definition incl. hex macros, macro '
              'invocation with depth and expansion limits), caret primitives, limit_caret_pos, Buffer::print_char, margins, '
-             'tab stops on a terminal buffer',
-    not_modelled='what external actions do (OSC palette regex + hyperlink list, custom font load, sixel decode thread, '
-                 'music note list, SGR attribute bits: crash-isolated oracle only); RIP/IGS (C20); cell contents and '
-                 'colours of every emulation (the models carry geometry and parser state only)',
+             'tab stops on a terminal buffer; the places where content operations index with the cursor or a margin '
+             '(ECH column, IL / DL / PETSCII ESC D,I / ATASCII 9C,9D row and bottom margin, insert-mode print row and column) as '
+             'explicit panics shown unreachable; the ANSI music machine of sound.rs completely (seven states with payloads, '
+             'octave / length / tempo incl. the u16 truncation, action list, dropped-note and repeated-pause quirks; '
+             'music_fields_in_range, music_arith_safe, note_index_in_table), tied through the payload of every PlayMusic action',
+    not_modelled='what OSC execution does (palette regex + hyperlink list: its Ok/Err is an oracle input; panic-capable sites there: '
+                 '`first().unwrap()` guarded by i == 3, regex groups 2-4 are not optional, hyperlink length arithmetic needs '
+                 'rows x width > 2^31 cells), custom font load (oracle input; C10/C17), sixel decode thread (C14), SGR '
+                 'attribute bits and colours (Ok/Err of SGR is modelled), cell contents of every emulation (the models carry '
+                 'geometry and parser state; Line::get_line_length for HPA/HPR is an oracle value observed before each top-level '
+                 'character — the generator keeps HPA/HPR out of macro bodies), current_escape_sequence (error text), RIP/IGS '
+                 '(C20). Modelled arms the quick generator still does not reach: InvalidBuffer / `None` arms behind is_empty '
+                 'checks (unreachable), OriginMode::WithinMargins (never set), macro budget exhaustion (C03 reaches it)',
     assumptions=['the model raises `overflow` conservatively when cursor/row arithmetic could leave i32; '
-                 'theorem overflow_guard_needs_2_30_rows shows this needs a scrollback above 2^30 rows'],
+                 'theorem overflow_guard_needs_2_30_rows shows this needs a scrollback above 2^30 rows',
+                 'the negIndex conditions of ECH / IL / DL are conservative (they do not know whether the addressed row exists); '
+                 'they only differ from the code in states with a negative cursor coordinate or margin, which are unreachable',
+                 'a text-area resize executed inside a macro replay shows to the harness only as a size change at the invoking `z`'],
 )
